@@ -171,7 +171,7 @@ def _cases(tier, seed):
     rng = random.Random(seed)
     base = fixrun.universe(tier, seed, 0, 0, full=True, gen=False)
     nstate = 160 if tier == "quick" else 1500
-    ndiff = 320 if tier == "quick" else 3000
+    ndiff = 1100 if tier == "quick" else 8000
     import os
 
     def small(c):
@@ -185,7 +185,8 @@ def _cases(tier, seed):
         c = dict(c)
         c["mode"] = "state"
         cases.append(c)
-    for c in harness.sample(rng, base, ndiff):
+    commented = [c for c in base if c.get("variant") and c["variant"][0][0] in ("allcomment", "comment")]
+    for c in harness.sample(rng, base, ndiff // 2) + harness.sample(rng, commented, ndiff - ndiff // 2):
         c = dict(c)
         c["mode"] = "diff"
         c["salt"] = rng.randrange(4)
